@@ -186,6 +186,69 @@ fn rule_days_all() -> Vec<RuleDay> {
 }
 
 /// the statement's proviso: rule transitions more than one day inside the calendar year (and apart from each other)
+/// Tables with hundreds and with 2^16 transitions (the statement's "any transition count"): read from a file, then the
+/// offset at every transition -1 / +0 / +1 s, and the wall-clock answers on both sides of and inside every skipped and
+/// repeated hour (all of them up to 1000 transitions; the first, the last and those around index 2^8 and 2^16 beyond).
+/// Expected values by construction: transition i switches from offset i mod 3 to offset (i + 1) mod 3 of +01 / +02 / +03.
+fn many_transitions(acc: &mut Acc) {
+    for &n in &MANY_COUNTS {
+        let (z, version, v1, ind) = many_transition_zone(n);
+        let bytes = write_tzif(&z, version, v1, ind);
+        let vz = match guard(|| VerifZone::from_tzif(&bytes)) {
+            Ok(Ok(v)) => v,
+            other => {
+                acc.violation("from_tzif:rejects-wellformed", format!("a table of {} daily transitions written as TZif v{}", n, version), "Ok".into(), format!("{:?}", other.map(|r| r.map(|_| ()))));
+                continue;
+            }
+        };
+        acc.states += 1;
+        let off_in = |i: usize| MANY_OFFS[(i + 1) % 3]; // in effect from transition i on
+        for i in 0..n {
+            let t = z.trans[i].0;
+            for (d, want) in [(-1i64, MANY_OFFS[i % 3]), (0, off_in(i)), (1, off_in(i))] {
+                acc.transitions += 1;
+                match guard(|| vz.offset_at(t + d)) {
+                    Ok(Ok(o)) if o == want => acc.hit(OFF_OK),
+                    other => {
+                        acc.violation("offset_at:many-transitions", format!("table of {} daily transitions: offset at transition #{} {:+} s (unix time {})", n, i, d, t + d), format!("{}", want), format!("{:?}", other));
+                        break;
+                    }
+                }
+            }
+            let sampled = n <= 1000 || i < 40 || i + 40 >= n || (250..=260).contains(&i) || (65_530..=65_545).contains(&i) || i % 4099 == 0;
+            if !sampled {
+                continue;
+            }
+            let (ob, oa) = (MANY_OFFS[i % 3], off_in(i));
+            let gap = oa > ob;
+            use MappedLocalTime as M;
+            let (ob6, oa6) = (ob as i64, oa as i64);
+            let cases: [(i64, M<i32>); 5] = if gap {
+                [(ob6 - 1, M::Single(ob)), (ob6 + 1, M::None), ((ob6 + oa6) / 2, M::None), (oa6 - 1, M::None), (oa6, M::Single(oa))]
+            } else {
+                [(oa6 - 1, M::Single(ob)), (oa6, M::Ambiguous(ob, oa)), ((ob6 + oa6) / 2, M::Ambiguous(ob, oa)), (ob6 - 1, M::Ambiguous(ob, oa)), (ob6 + 1, M::Single(oa))]
+            };
+            for (d, want) in cases {
+                let Some(wn) = wall_ndt(t + d) else { continue };
+                acc.transitions += 1;
+                match guard(|| vz.offsets_for_local(wn)) {
+                    Ok(Ok(g)) if g == want => match want {
+                        M::None => acc.hit_nt(W_NONE),
+                        M::Single(_) => acc.hit(W_SINGLE),
+                        M::Ambiguous(..) => acc.hit_nt(W_AMB),
+                    },
+                    other => {
+                        acc.violation("wall:many-transitions", format!("table of {} daily transitions: offsets for wall clock {:?} (transition #{} at unix time {}, {})", n, wn, i, t, if gap { "an hour skipped" } else { "two hours repeated" }), format!("{:?}", want), format!("{:?}", other));
+                        break;
+                    }
+                }
+            }
+        }
+        acc.hit(TABLEZ);
+    }
+    acc.traces += 1;
+}
+
 fn inside_year(r: &RefRule, years: &[i64]) -> bool {
     let d = r.dst.as_ref().unwrap();
     // a rule whose start/end order differs from year to year belongs to no hemisphere and has no agreed
@@ -382,6 +445,9 @@ fn main() {
     let mut acc = explore_units(n_syn + n_rule + nfiles + n_single + n_foot, CLASSES.len(), only, |u, acc| {
         if u == 0 {
             mapped_local_time_algebra(acc);
+        }
+        if u == 1 {
+            many_transitions(acc);
         }
         if u >= n_syn + n_rule + nfiles + n_single {
             let k0 = (u - n_syn - n_rule - nfiles - n_single) * FOOT_CH;
